@@ -471,9 +471,16 @@ class Ctx:
         if len(self.samples) < limit:
             self.samples.append(obj)
 
+    MAX_KEPT = 400          # failures / disagreements kept in memory (the rest is only counted)
+
     def disagree(self, stream: str, case: dict, model, impl, variant: str = "impl"):
-        self.disagreements.append({"stream": stream, "case": case, "model": model, "impl": impl,
-                                   "variant": variant})
+        self.n_disagreements = getattr(self, "n_disagreements", 0) + 1
+        if len(self.disagreements) < self.MAX_KEPT:
+            self.disagreements.append({"stream": stream, "case": case, "model": model, "impl": impl,
+                                       "variant": variant})
+        else:
+            self.disagreements.append({"stream": stream, "case": {"omitted": True}, "model": str(model)[:80],
+                                       "impl": str(impl)[:80], "variant": variant})
 
     def oracle_fail(self, stream: str, case: dict, what: str, cls: str | None = None):
         """The property's own statement fails on the real code for `case`.
@@ -483,7 +490,20 @@ class Ctx:
                     k.get("match", {}).get("stream", stream) == stream:
                 self.known_hit[k["id"]] = self.known_hit.get(k["id"], 0) + 1
                 return
-        self.oracle_failures.append({"stream": stream, "case": case, "what": what, "class": cls})
+        self.n_oracle_failures = getattr(self, "n_oracle_failures", 0) + 1
+        key = (stream, cls)
+        self._fail_per_class = getattr(self, "_fail_per_class", {})
+        self._kept_full = getattr(self, "_kept_full", 0)
+        self._fail_per_class[key] = self._fail_per_class.get(key, 0) + 1
+        # keep the first few cases of every (stream, class) and a bounded total: a badly broken tree
+        # can fail on every case, and the replay only needs one case per class
+        if self._fail_per_class[key] <= 5 and self._kept_full < self.MAX_KEPT:
+            self._kept_full += 1
+            self.oracle_failures.append({"stream": stream, "case": case, "what": what, "class": cls})
+        else:
+            # placeholder: len(ctx.oracle_failures) keeps counting, the bulky case is dropped
+            self.oracle_failures.append({"stream": stream, "case": {"omitted": "see the first cases of this class"},
+                                         "what": str(what)[:200], "class": cls})
 
     # -- verdict
     def write_replay(self, payload: dict) -> Path:
@@ -532,7 +552,7 @@ class Ctx:
             if not lean_ok:
                 what += self.lean.problems
             if self.disagreements:
-                what.append(f"{len(self.disagreements)} model/implementation disagreement(s)")
+                what.append(f"{getattr(self, 'n_disagreements', len(self.disagreements))} model/implementation disagreement(s)")
             p = self.write_replay({"property": self.prop, "kind": "broken-obligation",
                                    "no_longer_checks": what,
                                    "lean_log_tail": (self.lean.log[-3000:] if self.lean else ""),
@@ -573,8 +593,8 @@ class Ctx:
             "streams": self.streams,
             "histograms": self.hist,
             "driver_lines": self._driver.lines_sent if self._driver else 0,
-            "disagreements": len(self.disagreements),
-            "oracle_failures": len(self.oracle_failures),
+            "disagreements": getattr(self, "n_disagreements", len(self.disagreements)),
+            "oracle_failures": getattr(self, "n_oracle_failures", len(self.oracle_failures)),
             "known_findings_hit": self.known_hit,
             "stale_findings": [k["id"] for k in self.known if not self.known_hit.get(k["id"])],
             "notes": self.notes,
